@@ -159,3 +159,13 @@ def run(A, R: Report, thorough: bool):
     R.rule('R15.5', 'numpy entries are returned as copies of the file content, never as views of the file another caller rewrites in place', floor=1)
     check_numpy_entries(A, R, 'R15.5')
 
+    R.rule('R15.7', 'directories on the way to a cache file are created race-tolerantly (mkdir(exist_ok=True)), never by a check-then-create outside the lock', floor=1)
+    fc7 = A.cls('FileCache')
+    for ci_ in [fc7] + list(fc7.all_subclasses(include_self=False)):
+        for m_ in ci_.methods.values():
+            for c_ in A.typer.own_nodes(m_):
+                if isinstance(c_, ast.Call) and isinstance(c_.func, ast.Attribute) and c_.func.attr in ('mkdir', 'makedirs'):
+                    ok_ = any(kw.arg == 'exist_ok' and isinstance(kw.value, ast.Constant) and kw.value.value is True for kw in c_.keywords)
+                    R.check(ok_, 'R15.7', f'{ci_.short}.{m_.name}: `{src(c_)[:50]}`', key_of('mkdir-race', ci_.short, m_.name, ok_), 'exist_ok=True',
+                            f'`{src(c_)[:60]}` fails with FileExistsError when another caller creates the directory between the existence test and the call: two first users of a key bucket, one of them fails because of the other', where=where(m_, c_))
+
